@@ -182,10 +182,16 @@ func (s *spyStore) DeletePrefix(prefix kvstore.KeyPrefix) error {
 	return s.inner.DeletePrefix(prefix)
 }
 
+// Flush forwards; while the fault is armed, a Flush that succeeded is reported as failed with an error that is not
+// ErrStoreClosed (kvstore.ErrKeyNotFound, printed "notfound").
 func (s *spyStore) Flush() error {
 	s.ev("Flush")
+	err := s.inner.Flush()
+	if err == nil && s.w.armed {
+		return kvstore.ErrKeyNotFound
+	}
 
-	return s.inner.Flush()
+	return err
 }
 
 func (s *spyStore) Close() error {
@@ -271,12 +277,23 @@ func flushes(stack []wrapCfg) []string {
 	return out
 }
 
+// flushesOf: the Flush calls behind a mutation that succeeded - one per flushkv layer; with the fault armed the first one
+// fails, and the layers above it see an error and do not flush.
+func (o *oracle) flushesOf(stack []wrapCfg) []string {
+	fl := flushes(stack)
+	if o.armed && len(fl) > 1 {
+		return fl[:1]
+	}
+
+	return fl
+}
+
 // expectTrace: what must have been forwarded for request f, given the oracle's state BEFORE the request.
 func (o *oracle) expectTrace(f []string) []string {
 	num := func(i int) int { n, _ := strconv.Atoi(f[i]); return n }
 	bs := func(i int) []byte { return hx.UnHex(f[i]) }
 	switch f[0] {
-	case "spy", "wrap":
+	case "spy", "wrap", "arm", "disarm":
 		return nil
 	case "view":
 		st, ok := o.stacks[num(2)]
@@ -308,7 +325,7 @@ func (o *oracle) expectTrace(f []string) []string {
 				return []string{"bCommit"}
 			}
 
-			return append([]string{"bCommit"}, flushes(st)...)
+			return append([]string{"bCommit"}, o.flushesOf(st)...)
 		}
 	}
 	hIdx := 1
@@ -322,7 +339,7 @@ func (o *oracle) expectTrace(f []string) []string {
 	mut := func(cmd int, name string, args ...[]byte) []string {
 		out := append(cbsOf(st, cmd, name, args...), evString(name, args...))
 		if !o.closed {
-			out = append(out, flushes(st)...)
+			out = append(out, o.flushesOf(st)...)
 		}
 
 		return out
